@@ -529,7 +529,12 @@ def describe_request(r, eff):
     if k == "InvStmtRq":
         d["brokerid"] = eff["brokerid"]
         d["incoo"], d["incpos"], d["incbal"], d["dtasof"] = r["incoo"], r["incpos"], r["incbal"], date_ms(r["dtasof"])
-    if k in ("StmtRq", "CcStmtRq", "InvStmtRq"):
+    if k in ("StmtRq", "CcStmtRq"):
+        # bank / credit card: the wrapper carries the date range and the include flag as given, also for inctran=False
+        d["inctran"] = r["inctran"]
+        d["dtstart"], d["dtend"] = date_ms(r["dtstart"]), date_ms(r["dtend"])
+    elif k == "InvStmtRq":
+        # investment (reading adopted): INCTRAN absent says "no transactions"; the date range only matters with inctran=True
         d["inctran"] = r["inctran"]
         d["dtstart"], d["dtend"] = (date_ms(r["dtstart"]), date_ms(r["dtend"])) if r["inctran"] else (None, None)
     else:
@@ -554,7 +559,15 @@ def describe_wrapper(k, w, rqtag):
         pos = rq.get("INCPOS")
         pm = leafmap(pos) if isinstance(pos, list) else {}
         d["incoo"], d["incpos"], d["incbal"], d["dtasof"] = yn(rq.get("INCOO")), yn(pm.get("INCLUDE")), yn(rq.get("INCBAL")), wire_ms(pm.get("DTASOF"))
-    if k in ("StmtRq", "CcStmtRq", "InvStmtRq"):
+    if k in ("StmtRq", "CcStmtRq"):
+        inc = rq.get("INCTRAN")
+        if isinstance(inc, list):
+            im = leafmap(inc)
+            d["inctran"] = yn(im.get("INCLUDE"))
+            d["dtstart"], d["dtend"] = wire_ms(im.get("DTSTART")), wire_ms(im.get("DTEND"))
+        else:
+            d["inctran"], d["dtstart"], d["dtend"] = ("no INCTRAN",), None, None
+    elif k == "InvStmtRq":
         inc = rq.get("INCTRAN")
         if isinstance(inc, list):
             im = leafmap(inc)
